@@ -63,7 +63,8 @@ FlatR(ss, lo, hi) ==      \* balanced concatenation: O(n log n) copies
   IF lo > hi THEN <<>>
   ELSE IF lo = hi THEN ss[lo]
   ELSE LET m == (lo + hi) \div 2 IN FlatR(ss, lo, m) \o FlatR(ss, m + 1, hi)
-Flat(ss) == FlatR(ss, 1, Len(ss))
+Flat(ss) == FlatR(ss, 1, Len(ss))              \* ss: a tuple
+FlatF(f, n) == FlatR(f, 1, n)                    \* f: a function constructor over 1..n; every f[i] is evaluated exactly once
 
 Rep(n, x) == [i \in 1..n |-> x]
 Drop(s, n) == SubSeq(s, n + 1, Len(s))
@@ -191,11 +192,11 @@ Enc(v) ==
     [] v.t \in {"int", "lit", "flt"} -> NumberBytes(v)
     [] v.t = "str" -> EncString(v.b)
     [] v.t = "arr" ->
-         <<LBrack>> \o Flat([i \in 1..Len(v.a) |-> (IF i > 1 THEN <<Comma>> ELSE <<>>) \o Enc(v.a[i])]) \o <<RBrack>>
+         <<LBrack>> \o FlatF([i \in 1..Len(v.a) |-> (IF i > 1 THEN <<Comma>> ELSE <<>>) \o Enc(v.a[i])], Len(v.a)) \o <<RBrack>>
     [] v.t = "obj" ->
          LET kvs == SortPairs(v.o) IN
-         <<LBrace>> \o Flat([i \in 1..Len(kvs) |->
-                               (IF i > 1 THEN <<Comma>> ELSE <<>>) \o EncString(kvs[i][1]) \o <<Colon>> \o Enc(kvs[i][2])])
+         <<LBrace>> \o FlatF([i \in 1..Len(kvs) |->
+                               (IF i > 1 THEN <<Comma>> ELSE <<>>) \o EncString(kvs[i][1]) \o <<Colon>> \o Enc(kvs[i][2])], Len(kvs))
            \o <<RBrace>>
 
 \* func.go ------------------------------------------------------------------
@@ -295,10 +296,10 @@ CliEvents(v, ind, pal, depth) ==
           LET d1 == depth + ind       \* e.depth += e.indent
               n == Len(v.a)
           IN <<W(<<LBrack>>, pal.array)>>
-               \o Flat([i \in 1..n |->
+               \o FlatF([i \in 1..n |->
                           (IF i > 1 THEN <<W(<<Comma>>, pal.array)>> ELSE <<>>)
                             \o (IF ind >= 0 THEN <<NL(d1)>> ELSE <<>>)
-                            \o CliEvents(v.a[i], ind, pal, d1)])
+                            \o CliEvents(v.a[i], ind, pal, d1)], n)
                \o (IF n > 0 /\ ind >= 0 THEN <<NL(depth)>> ELSE <<>>)       \* after e.depth -= e.indent
                \o <<W(<<RBrack>>, pal.array)>>
      [] v.t = "obj" ->        \* encodeObject
@@ -306,12 +307,12 @@ CliEvents(v, ind, pal, depth) ==
               kvs == SortPairs(v.o)
               n == Len(kvs)
           IN <<W(<<LBrace>>, pal.object)>>
-               \o Flat([i \in 1..n |->
+               \o FlatF([i \in 1..n |->
                           (IF i > 1 THEN <<W(<<Comma>>, pal.object)>> ELSE <<>>)
                             \o (IF ind >= 0 THEN <<NL(d1)>> ELSE <<>>)
                             \o <<W(EncString(kvs[i][1]), pal.key), W(<<Colon>>, pal.object)>>
                             \o (IF ind >= 0 THEN <<W(<<Space>>, <<>>)>> ELSE <<>>)
-                            \o CliEvents(kvs[i][2], ind, pal, d1)])
+                            \o CliEvents(kvs[i][2], ind, pal, d1)], n)
                \o (IF n > 0 /\ ind >= 0 THEN <<NL(depth)>> ELSE <<>>)
                \o <<W(<<RBrace>>, pal.object)>>)
   \o <<Chk>>
@@ -322,7 +323,7 @@ EventBytes(ev, tab) ==
   CASE ev.op = "w" -> ev.b
     [] ev.op = "nl" -> <<LF>> \o (IF ev.n > 0 THEN Rep(ev.n, IndentChar(tab)) ELSE <<>>)
     [] ev.op = "chk" -> <<>>
-Render(evs, tab) == Flat([i \in 1..Len(evs) |-> EventBytes(evs[i], tab)])
+Render(evs, tab) == FlatF([i \in 1..Len(evs) |-> EventBytes(evs[i], tab)], Len(evs))
 
 \* marshal(v, w) of the indenting encoder
 CliBytes(v, cfg, pal) == Render(CliEvents(v, cfg.indent, pal, 0), cfg.tab)
@@ -336,7 +337,7 @@ PrintValue(v, cfg, pal) ==
 Stdout(vs, cfg) ==
   LET p == PaletteOf(cfg.color, cfg.colors) IN
   IF ~p.ok THEN [status |-> 5, out |-> <<>>]
-  ELSE [status |-> 0, out |-> Flat([i \in 1..Len(vs) |-> PrintValue(vs[i], cfg, p.pal)])]
+  ELSE [status |-> 0, out |-> FlatF([i \in 1..Len(vs) |-> PrintValue(vs[i], cfg, p.pal)], Len(vs))]
 
 \* cli.go funcDebug / funcStderr: a compact encoder (with the colours of the run) on stderr
 DebugBytes(v, pal) == CliBytes(VArr(<<VStr(<<68, 69, 66, 85, 71, 58>>), v>>), [indent |-> -1, tab |-> FALSE], pal) \o <<LF>>
